@@ -870,6 +870,46 @@ func compareStructure(n *pNode, p *mimePart, path string) error {
 
 	typ, sub := strings.ToLower(n.Kids[0].Str), strings.ToLower(n.Kids[1].Str)
 
+	// extension data (BODYSTRUCTURE only): the disposition must be the part's own
+	if p.Type != "" {
+		base := 7
+
+		switch {
+		case typ == "message" && sub == "rfc822":
+			base = 10
+		case typ == "text":
+			base = 8
+		}
+
+		if len(n.Kids) > base+1 {
+			squash := func(s string) string { return strings.Join(strings.Fields(s), " ") }
+			dsp := n.Kids[base+1]
+			got := "NIL"
+
+			if dsp.Kind == "list" && len(dsp.Kids) > 0 {
+				got = strings.ToLower(dsp.Kids[0].Str)
+
+				if len(dsp.Kids) > 1 && dsp.Kids[1].Kind == "list" {
+					for i := 0; i+1 < len(dsp.Kids[1].Kids); i += 2 {
+						got += fmt.Sprintf(" %s=%s", strings.ToLower(dsp.Kids[1].Kids[i].Str), squash(dsp.Kids[1].Kids[i+1].Str))
+					}
+				}
+			}
+
+			want := "NIL"
+			if p.Disp != "" {
+				want = strings.ToLower(p.Disp)
+				for _, kv := range p.DispParam {
+					want += fmt.Sprintf(" %s=%s", strings.ToLower(kv[0]), squash(kv[1]))
+				}
+			}
+
+			if got != want {
+				return fmt.Errorf("part %q: built with the disposition %q, the structure says %q", path, want, got)
+			}
+		}
+	}
+
 	switch {
 	case typ == "message" && sub == "rfc822" && p.Embedded != nil:
 		if len(n.Kids) < 10 {
@@ -899,7 +939,7 @@ func compareStructure(n *pNode, p *mimePart, path string) error {
 // ---- the check ---------------------------------------------------------------------------------------
 
 func runC12(r *ev.Run) {
-	r.SetRule("inputs: generated MIME trees (structure known by construction), mutations of them (bit flips, cuts, duplications, inserted tokens, truncation, LF / bare CR line ends, NUL and list-syntax bytes), token soup of MIME/header fragments, encoded header values (RFC 2047 words and RFC 2231 extended parameters that decode to NUL, CR, LF, quotes, backslashes, braces, parentheses, 8-bit bytes), header-field edge cases (blanks after the colon, empty or blank first line, CRLF/LF/CR ends, folds, blank continuation lines for every field ENVELOPE and BODYSTRUCTURE read), random bytes, deep nesting in doubling series (message/rfc822 to 2000 / 4000 levels, multiparts to 1500 / 20000 levels), very wide multiparts, huge header lines, and address-list soup for rfc5322.ParseAddressList. A child process runs imap.NewParsedMessage, rfc822.Parse/Walk/Part (incl. part paths that do not exist) on each input and logs BEGIN/RESULT lines; the parent decides: the child must not die or hang on any input; ENVELOPE / BODY / BODYSTRUCTURE must read as strict parenthesised lists (balanced, quoted strings without CR/LF/NUL and with proper escapes, literals of the announced length, single spaces) of the ENVELOPE (10 fields, address 4-tuples) and body shapes; every walked part must lie inside the message and inside its parent's body; for generated messages the structure must equal the tree (types, parameters, sizes, line counts, nesting); the CPU time per input (reported by the child) may not more than triple when the nesting depth doubles. distinct = distinct (input kind, outcome, structure shape class) tuples")
+	r.SetRule("inputs: generated MIME trees (structure known by construction), mutations of them (bit flips, cuts, duplications, inserted tokens, truncation, LF / bare CR line ends, NUL and list-syntax bytes), token soup of MIME/header fragments, encoded header values (RFC 2047 words and RFC 2231 extended parameters that decode to NUL, CR, LF, quotes, backslashes, braces, parentheses, 8-bit bytes), header-field edge cases (blanks after the colon, empty or blank first line, CRLF/LF/CR ends, folds, blank continuation lines for every field ENVELOPE and BODYSTRUCTURE read), random bytes, deep nesting in doubling series (message/rfc822 to 2000 / 4000 levels, multiparts to 1500 / 20000 levels), very wide multiparts, huge header lines, and address-list soup for rfc5322.ParseAddressList. A child process runs imap.NewParsedMessage, rfc822.Parse/Walk/Part (incl. part paths that do not exist) on each input and logs BEGIN/RESULT lines; the parent decides: the child must not die or hang on any input; ENVELOPE / BODY / BODYSTRUCTURE must read as strict parenthesised lists (balanced, quoted strings without CR/LF/NUL and with proper escapes, literals of the announced length, single spaces) of the ENVELOPE (10 fields, address 4-tuples) and body shapes; every walked part must lie inside the message and inside its parent's body; for generated messages the structure must equal the tree (types, parameters, sizes, line counts, nesting, each part's own disposition); the CPU time per input (reported by the child) may not more than triple when the nesting depth doubles. distinct = distinct (input kind, outcome, structure shape class) tuples")
 	r.Assume("a non-terminating parse is reported only after the single input, re-run alone in a fresh process, still has not finished after 60 s (inputs are below 3 MB); an error return from NewParsedMessage is a legitimate outcome for malformed input")
 
 	rng := r.Rand("inputs")
